@@ -10,7 +10,7 @@ DEMO=""
 FEAT=""
 if [ -f "$OUT/demo_test.rs" ]; then
   cp "$OUT/demo_test.rs" tests/zz_demo_$NAME.rs; DEMO="--test zz_demo_$NAME"
-  if grep -q "verif_" "$OUT/demo_test.rs"; then FEAT="--features verif"; fi
+  if grep -q "verif" "$OUT/demo_test.rs"; then FEAT="--features verif"; fi
 fi
 LOG="$OUT/confirm.log"; : > "$LOG"
 if [ -n "$DEMO" ]; then
